@@ -20,6 +20,7 @@
 
 #include <cstddef>
 #include <functional>
+#include <initializer_list>
 #include <iterator>
 #include <memory>
 #include <sstream>
@@ -91,6 +92,65 @@ int key_of(int k, int v)
   default:
     return v < 0 ? -v : v;
   }
+}
+
+bool sel_well_formed(std::string const &tok)
+{
+  if (!tok.empty() && tok[0] == 'p')
+  {
+    std::size_t pos = 1;
+    while (true)
+    {
+      std::size_t const next = tok.find('.', pos);
+      if (!is_nat(tok.substr(pos, next == std::string::npos ? next : next - pos)))
+        return false;
+      if (next == std::string::npos)
+        return true;
+      pos = next + 1;
+    }
+  }
+  return is_nat(tok);
+}
+
+bool one_of(std::string const &c, std::initializer_list<char const *> l)
+{
+  for (char const *x : l)
+    if (c == x)
+      return true;
+  return false;
+}
+
+// the tokens of a line that select nodes; false: not a known node command of that arity
+bool node_operands(std::vector<std::string> const &t, std::vector<std::string> &out)
+{
+  if (t.size() == 2 && one_of(t[0], {"clear", "sort", "cpc", "mvc", "pre", "toroot", "depth", "level", "map", "front", "back",
+                                     "kids", "out"}))
+  {
+    out = {t[1]};
+    return true;
+  }
+  if (t.size() == 3 && one_of(t[0], {"set", "pushb", "pushf", "popb", "popf", "erase", "cposk", "sortp", "mkl"}))
+  {
+    out = {t[1]};
+    return true;
+  }
+  if (t.size() == 3 && one_of(t[0], {"pushbt", "pushft", "swap", "cpa", "mva", "cpos", "eq", "pushbv", "pushfv", "setv",
+                                     "pushbmv", "pushfmv", "setmv"}))
+  {
+    out = {t[1], t[2]};
+    return true;
+  }
+  if (t.size() == 4 && one_of(t[0], {"ins", "rel", "eraser"}))
+  {
+    out = {t[1]};
+    return true;
+  }
+  if (t.size() == 4 && one_of(t[0], {"inst", "insv"}))
+  {
+    out = {t[1], t[3]};
+    return true;
+  }
+  return false;
 }
 
 // A value type that can be moved but not copied (fcppt itself instantiates the tree with such a type:
